@@ -296,6 +296,9 @@ impl Default for Cfg {
 /// Marker of the history-keeping write path (see `Cfg::hist`).
 #[derive(Component)]
 pub struct HistMarker;
+/// A second marker on the same entities, registered without `need_history`.
+#[derive(Component)]
+pub struct PlainMarker;
 
 /// Every value of `A` received for the entity, with the tick of its message.
 #[derive(Component, Default)]
@@ -419,8 +422,11 @@ pub fn build_app_with(cfg: &Cfg, extra_rule: bool) -> App {
         use bevy_replicon::shared::replication::{command_markers::MarkerConfig, replication_registry::command_fns};
         app.register_marker_with::<HistMarker>(MarkerConfig { need_history: true, ..Default::default() })
             .set_marker_fns::<HistMarker, A>(write_hist_a, command_fns::default_remove::<A>);
+        // a second marker that does not ask for history, with (ordinary) functions for `B`
+        app.register_marker::<PlainMarker>()
+            .set_marker_fns::<PlainMarker, B>(command_fns::default_write::<B>, command_fns::default_remove::<B>);
         app.add_observer(|t: Trigger<OnAdd, Replicated>, mut commands: Commands| {
-            commands.entity(t.target()).insert(HistMarker);
+            commands.entity(t.target()).insert((HistMarker, PlainMarker));
         });
     }
     app.finish();
@@ -830,6 +836,19 @@ impl Sim {
             .world_mut()
             .resource_mut::<RepliconClient>()
             .set_status(RepliconClientStatus::Connected);
+    }
+
+    /// The transport reports `Connecting` for a few client frames before `Connected`.
+    pub fn connect_slowly(&mut self, c: usize, frames: usize) {
+        self.clients[c]
+            .app
+            .world_mut()
+            .resource_mut::<RepliconClient>()
+            .set_status(RepliconClientStatus::Connecting);
+        for _ in 0..frames {
+            let _ = self.client_frame(c);
+        }
+        self.connect(c);
     }
 
     /// Transport-level disconnect seen by both sides; in-flight traffic is discarded.
